@@ -64,3 +64,38 @@ Theorem C17_unfold_sequence : forall tr t old v,
     SF.Gotype.Unfold.uf fuel2 t old (flat_map expand (flatten tr ++ evs2)) = SF.Gotype.Unfold.UOk v (flat_map expand evs2).
 Proof. exact SF.Gotype.UnfoldProofs.C17_sequence. Qed.
 Print Assumptions C17_unfold_sequence.
+
+(* UBJSON parser.  After ANY accepted input (Parse, or Write ... Write then end; any visitor
+   behaviour) the state stack is empty, the parser is in its start state, nothing is buffered,
+   no length marker is pending and no error is latched ([top]).  For inputs without zero-sized
+   typed containers the valueState stack is empty too; for every document the reference
+   decoder accepts, ALL fields are those of the initial parser except the element-type field
+   [up_vtype], which is written before it is read.
+   PARTIAL: emptiness of the length stack for parser-accepted inputs the reference decoder does
+   not accept, and the behavioural form (reused = fresh on the next document) are decided by
+   the run-time part (kind histubj). *)
+From SF Require Ubjson.Spec Ubjson.Parse Ubjson.ParseVisitorProofs Ubjson.ConformanceProofs.
+Module UP := SF.Ubjson.Parse.
+Module UV := SF.Ubjson.ParseVisitorProofs.
+Theorem C17_ubj_parser_top : forall vfail b evs p,
+  UP.urun_parse vfail b = Ok (evs, UP.unilE, p) -> UV.top p.
+Proof. exact UV.C17_ubj_run_parse_top. Qed.
+Print Assumptions C17_ubj_parser_top.
+
+Theorem C17_ubj_parser_top_chunks : forall vfail chunks evs p,
+  UP.urun_chunks vfail chunks = Ok (evs, UP.unilE, p) -> UV.top p.
+Proof. exact UV.C17_ubj_run_chunks_top. Qed.
+Print Assumptions C17_ubj_parser_top_chunks.
+
+(* from any parser satisfying the invariant (hence after any history of accepted documents) *)
+Theorem C17_ubj_parser_history : forall p s b p' s',
+  SF.Ubjson.ChunkProofs.Inv p -> UP.up_parse p s b = Ok (p', s', UP.unilE) -> UV.top p' /\ SF.Ubjson.ChunkProofs.Inv p'.
+Proof. exact UV.C17_ubj_parse_top. Qed.
+Print Assumptions C17_ubj_parser_history.
+
+Theorem C17_ubj_parser_reset : forall b v, all_bytes b = true ->
+  SF.Ubjson.ConformanceProofs.no_huge_zero_typed b = true ->
+  SF.Ubjson.Spec.ubj_decode b = RValue v [] ->
+  exists evs vt, UP.urun_parse None b = Ok (evs, UP.unilE, SF.Ubjson.ConformanceProofs.uset_vtype UP.uparser0 vt).
+Proof. exact UV.C17_ubj_accept_reset. Qed.
+Print Assumptions C17_ubj_parser_reset.
